@@ -509,4 +509,170 @@ theorem pre_loop_spec (g : Grammar) (o : Opts) (el : Nat) (n : Node) (p : Option
           obtain ⟨_, rfl⟩ := hp
           exact register_spec g s el n p i pn hg (dispatch_not_nt g o n _ pn hd) hl
 
+theorem setComplete_spec (g : Grammar) (s : St) (el : Nat) (hl : LInv g s) :
+    LInv g (setComplete s el) ∧ (∀ u, Pend (setComplete s el) u → Pend s u) ∧
+      (∀ u, Tgt s u → Tgt (setComplete s el) u) ∧
+      (∀ st, aget (setComplete s el).lookup el = some st → st.complete = true) := by
+  unfold setComplete
+  cases h : aget s.lookup el with
+  | none =>
+    simp only
+    exact ⟨hl, fun _ hu => hu, fun _ hu => hu, fun st hst => by rw [h] at hst; exact absurd hst (by simp)⟩
+  | some st =>
+    simp only
+    obtain ⟨a1, a2, a3⟩ := setL_spec g s s.index el { st with complete := true } hl
+      (hl.lk el st h).1 (hl.lk el st h).2
+      (fun ⟨st0, h0, e0⟩ => by rw [h] at h0; simp only [Option.some.injEq] at h0; subst h0; exact e0)
+    refine ⟨a1, ?_, a3, ?_⟩
+    · intro u hu
+      rcases a2 u hu with hh | hh
+      · exact hh
+      · rw [hh.1]; exact ⟨st, h, hh.2⟩
+    · intro st2 hst2
+      have : aget (aset s.lookup el { st with complete := true }) el = some st2 := hst2
+      rw [aget_aset_same] at this
+      simp only [Option.some.injEq] at this
+      subst this; rfl
+
+theorem post_spec (g : Grammar) (el : Nat) (n : Node) (hint : Option String) (ret : Nat) (s : St)
+    (hl : LInv g s) :
+    LInv g (post el n hint ret s).2 ∧ (∀ u, Pend (post el n hint ret s).2 u → Pend s u ∧ u ≠ el) ∧
+      (∀ u, Tgt s u → Tgt (post el n hint ret s).2 u) := by
+  have h1 : Step g s (post1 n hint ret s).2 := by
+    unfold post1
+    split
+    · exact Step_alloc g s _ (fun h => absurd h (by simp))
+    · exact Step.refl g s
+  obtain ⟨a1, a2, a3⟩ := h1 hl
+  obtain ⟨b1, b2, b3, b4⟩ := setComplete_spec g (post1 n hint ret s).2 el a1
+  unfold post
+  simp only
+  cases hk : aget (setComplete (post1 n hint ret s).2 el).lookup el with
+  | none =>
+    simp only
+    refine ⟨b1, ?_, fun u hu => b3 u (a3 u hu)⟩
+    intro u hu
+    refine ⟨a2 u (b2 u hu), ?_⟩
+    rintro rfl
+    obtain ⟨st, hst, _⟩ := hu
+    rw [hk] at hst; exact absurd hst (by simp)
+  | some st =>
+    simp only
+    split
+    · rename_i hc
+      have hx : st.extract = true := by simp only [Bool.and_eq_true] at hc; exact hc.1
+      obtain ⟨c1, c2, c3⟩ := extract_spec g _ el (fun pos hp => by
+        rw [hk] at hp; simp only [Option.some.injEq] at hp; subst hp; exact hx) b1
+      obtain ⟨d, hd, hdn⟩ := extract_diagrams_same _ el st hk
+      simp only [hd, newNT]
+      have hnm := c1.dg el d hd
+      obtain ⟨e1, e2, e3⟩ := Step_alloc g (extractIntoDiagram (setComplete (post1 n hint ret s).2 el) el)
+        { func := .nonTerminal, text := d.name.getD "" }
+        (fun _ => ⟨el, getD_of_eq_custom hnm.1 hnm.2, Or.inl ⟨d, hd⟩⟩) c1
+      refine ⟨e1, ?_, fun u hu => e3 u (c3 u (b3 u (a3 u hu)))⟩
+      intro u hu
+      have := c2 u (e2 u hu)
+      exact ⟨a2 u (b2 u this.1), this.2⟩
+    · rename_i hc
+      refine ⟨b1, ?_, fun u hu => b3 u (a3 u hu)⟩
+      intro u hu
+      refine ⟨a2 u (b2 u hu), ?_⟩
+      rintro rfl
+      obtain ⟨st', hst', he'⟩ := hu
+      rw [hk] at hst'; simp only [Option.some.injEq] at hst'; subst hst'
+      exact hc (by simp [he', b4 _ hk])
+
+theorem annotate_spec (g : Grammar) (o : Opts) (n : Node) (r : Option Nat) (s : St) :
+    Step g s (annotate o n r s).2 := by
+  unfold annotate
+  split
+  · exact Step.refl g s
+  · split
+    · exact Step_alloc g s _ (fun h => absurd h (by simp))
+    · exact Step.refl g s
+
+/-! ### the recursion -/
+
+theorem stepKid_step (g : Grammar) (rec : Rec) (ret : Nat)
+    (hrec : ∀ c p i h s r s', rec c p i h s = some (r, s') → Step g s s') :
+    ∀ c i s i' s', stepKid rec ret c i s = some (i', s') → Step g s s' := by
+  intro c i s i' s' h
+  unfold stepKid at h
+  split at h
+  · exact absurd h (by simp)
+  · rename_i item s2 hr
+    have h1 : Step g s s2 := (Step_addPlaceholder g s ret i).trans (hrec _ _ _ _ _ _ _ hr)
+    split at h <;> simp only [Option.some.injEq, Prod.mk.injEq] at h <;> obtain ⟨_, rfl⟩ := h
+    · exact h1.trans (Step_setKw g _ _ _)
+    · exact h1.trans (Step_setKw g _ _ _)
+    · exact h1
+    · exact h1.trans (Step_setKw g _ _ _)
+    · exact h1
+
+theorem loopKids_step (g : Grammar) (rec : Rec) (ret : Nat)
+    (hrec : ∀ c p i h s r s', rec c p i h s = some (r, s') → Step g s s') :
+    ∀ kids i s s', loopKids rec ret kids i s = some s' → Step g s s' := by
+  intro kids
+  induction kids with
+  | nil => intro i s s' h; simp [loopKids] at h; exact h ▸ Step.refl g s
+  | cons c cs ih =>
+    intro i s s' h
+    unfold loopKids at h
+    split at h
+    · exact absurd h (by simp)
+    · rename_i i' s1 hs
+      exact (stepKid_step g rec ret hrec _ _ _ _ _ hs).trans (ih _ _ _ h)
+
+/-- **frame property of `_to_diagram_element`**: a returning call preserves the link invariant,
+    leaves no new pending element, and keeps every link target -/
+theorem conv_step (g : Grammar) (o : Opts) :
+    ∀ fuel el p i h s r s', conv g o fuel el p i h s = some (r, s') → Step g s s' := by
+  intro fuel
+  induction fuel with
+  | zero => intro el p i h s r s' hc; simp [conv] at hc
+  | succ f ih =>
+    intro el p i h s r s' hc
+    unfold conv at hc
+    cases hg : g[el]? with
+    | none => simp [hg] at hc; exact hc.2 ▸ Step.refl g s
+    | some n =>
+      simp only [hg] at hc
+      cases hb : convBody g o (conv g o f) el n p i h s with
+      | none => simp [hb] at hc
+      | some rs =>
+        obtain ⟨r1, s1⟩ := rs
+        simp only [hb, Option.some.injEq] at hc
+        have e : (annotate o n r1 s1).2 = s' := by rw [hc]
+        refine e ▸ Step.trans ?_ (annotate_spec g o n r1 s1)
+        unfold convBody at hb
+        cases hp : pre g o el n p i h s with
+        | ret r0 s0 =>
+          simp only [hp, Option.some.injEq, Prod.mk.injEq] at hb
+          exact hb.2 ▸ pre_ret_spec g o el n p i h s r0 s0 hg hp
+        | pass c h' =>
+          simp only [hp] at hb
+          exact ih _ _ _ _ _ _ _ hb
+        | loop ret s0 =>
+          simp only [hp] at hb
+          cases hl : loopKids (conv g o f) ret n.kids 0 s0 with
+          | none => simp [hl] at hb
+          | some s2 =>
+            simp only [hl, Option.some.injEq] at hb
+            have e2 : (post el n h ret s2).2 = s1 := by rw [hb]
+            rw [← e2]
+            intro hinv
+            obtain ⟨a1, a2, a3⟩ := pre_loop_spec g o el n p i h s ret s0 hg hp hinv
+            obtain ⟨b1, b2, b3⟩ := loopKids_step g (conv g o f) ret
+              (fun c p i h s r s' a => ih c p i h s r s' a) _ _ _ _ hl a1
+            obtain ⟨c1, c2, c3⟩ := post_spec g el n h ret s2 b1
+            refine ⟨c1, ?_, fun u hu => c3 u (b3 u (a3 u hu))⟩
+            intro u hu
+            obtain ⟨hu1, hne⟩ := c2 u hu
+            rcases a2 u (b2 u hu1) with hh | hh
+            · exact hh
+            · exact absurd hh hne
+
+theorem LInv_init (g : Grammar) : LInv g {} :=
+  ⟨fun _ _ h => absurd h (by simp), fun _ _ h => absurd h (by simp), fun _ h => absurd h (by simp)⟩
+
 end PP.Diagram
